@@ -329,7 +329,7 @@ func (c *c13Check) Run(seed, run uint64, rec []uint32, st Stats, only *Viol) []V
 	progB := prelude + "e := " + recv + ".try" + chain + "\n" +
 		"rA := e.A\nrVal := e.val\nrErr := e.err\nrValQ := e.val?\nrErrQ := e.err?\nrOr := e.or(777)\nrEnd := e.end\n" +
 		fmt.Sprintf("rCatchAny := e.catch(Err){|x| S(%d); 4242}.A\n", handlerSlot) +
-		"rCatchT := e.catch(TypeErr){|x| 4243}.A\nrCatchV := e.catch(ValueErr){|x| 4244}.A\nrCatchZ := e.catch(ZeroDivisionErr){|x| 4245}.A\n" +
+		fmt.Sprintf("rCatchT := e.catch(TypeErr){|x| S(%d); 4243}.A\nrCatchV := e.catch(ValueErr){|x| S(%d); 4244}.A\nrCatchZ := e.catch(ZeroDivisionErr){|x| S(%d); 4245}.A\n", handlerSlot+1, handlerSlot+2, handlerSlot+3) +
 		"rIgnT := e.ignore(TypeErr).A\nrIgnN := e.ignore(NoPropErr).A\n" +
 		"rIgnTQ := [e.ignore(TypeErr).err?, e.ignore(TypeErr).val?]\nrCatchNilQ := e.catch(ValueErr){|x| nil}.err?\n" +
 		"e.abandon\n"
@@ -466,12 +466,24 @@ func (c *c13Check) Run(seed, run uint64, rec []uint32, st Stats, only *Viol) []V
 		// callees the plain chain invoked (accessor handler slot aside)
 		bTrace := harness.TraceIDs(rB.Trace)
 		var bChain []int
+		typedHandler := map[string]int{"TypeErr": handlerSlot + 1, "ValueErr": handlerSlot + 2, "ZeroDivisionErr": handlerSlot + 3}
+		handlerRuns := map[int]int{}
 		for _, x := range bTrace {
-			if x != handlerSlot {
+			if x < handlerSlot || x > handlerSlot+3 {
 				bChain = append(bChain, x)
+			} else {
+				handlerRuns[x]++
 			}
 		}
 		chk("trace", idsString(bChain) == a.trace, a.trace, idsString(bChain))
+		// a typed catch handler runs once when the captured error has exactly that type, else never
+		for kind, slot := range typedHandler {
+			wantRuns := 0
+			if a.raised && a.kind == kind {
+				wantRuns = 1
+			}
+			chk("catch-handler-"+kind, handlerRuns[slot] == wantRuns, fmt.Sprintf("handler of catch(%s) invoked %d times", kind, wantRuns), fmt.Sprintf("invoked %d times", handlerRuns[slot]))
+		}
 		if get("e") == nil {
 			report("try", "not-captured", "an Either", fmt.Sprintf("program stopped: %+v", outcomeOf(rB)))
 			continue
